@@ -184,3 +184,22 @@ add('M31c', [('SRC/dreadMM.c', "	fscanf(fp, \"%d%d%lf\\n\", &row[nz], &col[nz], 
              ('SRC/sreadMM.c', "	fscanf(fp, \"%d%d%f\\n\", &row[nz], &col[nz], &val[nz]);", "	fscanf(fp, \"%d%d%lf\\n\", &row[nz], &col[nz], &val[nz]);")], ['C16'],
     note='%f / %lf swapped between the real precisions (the sibling rule normalises the length modifier)')
 add('M31d', x4('SRC/?readMM.c', "    if ( !(col = int32Malloc(new_nonz)) )", "    if ( !(col = int32Malloc(*nonz)) )"), ['C16'], note='col[] too small for the symmetric expansion')
+
+# ---------------------------------------------------------------- benign edits: every check must stay silent
+ALL = ['C%02d' % i for i in range(1, 21)]
+add('B2', [('SRC/dgstrf.c', "    int       *iperm_r = NULL; /* inverse of perm_r; used when \n                                  options->Fact == SamePattern_SameRowPerm */\n    int       *iperm_c; /* inverse of perm_c */",
+            "    int       *iperm_c; /* inverse of perm_c */\n    int       *iperm_r = NULL; /* inverse of perm_r; used when \n                                  options->Fact == SamePattern_SameRowPerm */")], [], ALL,
+    note='reorder two local declarations in dgstrf')
+add('B3', x4('SRC/?gssv.c', "    t = SuperLU_timer_();\n    sp_preorder(options, AA, perm_c, etree, &AC);", "    t = SuperLU_timer_();\n    if (options->PrintStat == YES) { printf(\"preorder...\\n\"); fflush(stdout); }\n    sp_preorder(options, AA, perm_c, etree, &AC);"),
+    [], ALL, note='add a trace print to all four ?gssv')
+add('B5', [('SRC/dgstrs.c', "	    for (k = 0; k < n; k++) soln[perm_r[k]] = rhs_work[k];", "	    for (k = 0; k < n; ++k) soln[perm_r[k]] = rhs_work[k];")], [], ALL, note='k++ -> ++k in one loop of dgstrs')
+add('B6', x4('SRC/?gssvx.c', "	if ( info1 == 0 ) {\n	    /* Equilibrate matrix A. */\n	    ?laqgs(AA, R, C, rowcnd, colcnd, amax, equed);", "	if ( info1 == 0 ) {{\n	    /* Equilibrate matrix A. */\n	    ?laqgs(AA, R, C, rowcnd, colcnd, amax, equed);"),
+    [], [], note='(not used: unbalanced)')
+add('B7', [('SRC/util.c', "void\nDestroy_SuperMatrix_Store(SuperMatrix *A)\n{", "int slu_unused_helper(int a) { return a + 1; }\n\nvoid\nDestroy_SuperMatrix_Store(SuperMatrix *A)\n{")], [], ALL,
+    note='a new helper that nothing calls')
+add('B9', [('SRC/dgssvx.c', "    /* Test the input parameters */\n    if ( (options->Fact != DOFACT && options->Fact != SamePattern &&", "    /* Check   the    input arguments. */\n\n    if (   (options->Fact != DOFACT   &&  options->Fact != SamePattern &&"),
+           ('SRC/sp_preorder.c', "    n = A->ncol;\n", "    n = A->ncol;   /* number of columns */\n\n\n")], [], ALL, note='comments and whitespace')
+add('B10', x4('SRC/?gstrs.c', "    n = L->nrow;\n    work = ", "    n = L->nrow;\n    if ( !Bstore ) ABORT(\"B has no storage.\");\n    work = "), [], ALL, note='defensive ABORT after the screening, all four variants')
+add('B11', [('SRC/dgssvx.c', "rowequ", "row_scaled", 'all'), ('SRC/dgssvx.c', "colequ", "col_scaled", 'all')], [], ALL, note='rename two locals in dgssvx only')
+add('B12', x4('SRC/?gsrfs.c', "	    if (berr[j] > eps && berr[j] * 2. <= lstres && count < ITMAX) {", "	    if (count < ITMAX && berr[j] > eps && berr[j] * 2. <= lstres) {"), [], ALL,
+    note='reorder the conjuncts of the stopping test (all four)')
